@@ -1,10 +1,15 @@
 #[macro_use]
 extern crate gluon_vm;
+#[macro_use]
+extern crate gluon_codegen;
+#[macro_use]
+extern crate serde_derive;
 
 mod common;
 mod conc;
 mod heap;
 mod lang;
+mod marshal;
 mod editor;
 mod frontend;
 mod par;
@@ -100,6 +105,7 @@ fn main() {
         "conc" => conc::cmd(rest),
         "heap" => heap::cmd(rest),
         "lang" => lang::cmd(rest),
+        "marshal" => marshal::cmd(rest),
         "par" => par::cmd(rest),
         "types" => types::cmd(rest),
         "parse" => { let src = std::fs::read_to_string(&rest[0]).unwrap(); println!("{:?}", parse::dump(&src)); }
